@@ -9,6 +9,7 @@ import (
 	"errors"
 	"fmt"
 	"sort"
+	"strconv"
 	"strings"
 
 	"github.com/gogo/protobuf/proto"
@@ -29,6 +30,7 @@ type failKV struct {
 	failAt int
 	writes int
 	failed bool
+	failedKey string
 }
 
 var errInjected = errors.New("injected storage failure")
@@ -39,13 +41,24 @@ func storeKey(k string) bool {
 	return strings.HasPrefix(k, "raft/s/") || strings.HasPrefix(k, "schedule/store_weight")
 }
 
+// storeOfKey: the store id a store-record / store-weight key is about (0 if unknown).
+func storeOfKey(k string) uint64 {
+	p := strings.Split(k, "/")
+	for i := len(p) - 1; i >= 0; i-- {
+		if n, err := strconv.ParseUint(p[i], 10, 64); err == nil {
+			return n
+		}
+	}
+	return 0
+}
+
 func (f *failKV) Save(k, v string) error {
 	if !storeKey(k) {
 		return f.Base.Save(k, v)
 	}
 	f.writes++
 	if f.failAt > 0 && f.writes == f.failAt {
-		f.failed = true
+		f.failed, f.failedKey = true, k
 		return errInjected
 	}
 	return f.Base.Save(k, v)
@@ -56,7 +69,7 @@ func (f *failKV) Remove(k string) error {
 	}
 	f.writes++
 	if f.failAt > 0 && f.writes == f.failAt {
-		f.failed = true
+		f.failed, f.failedKey = true, k
 		return errInjected
 	}
 	return f.Base.Remove(k)
@@ -300,12 +313,23 @@ func (m *model) Apply(i int) *hist.Violation {
 		if err == nil && o.kind != "check" {
 			return bad("failed-write-no-error", "a storage write failed but the operation reported success")
 		}
+		// checkStores and the tombstone clean-up treat one store after the other (in map
+		// order), each with its own write: there the failed write is about one store and
+		// the stores handled before it were changed by their own, successful writes (the
+		// stored = served oracle below still applies to them)
+		only := uint64(0)
+		if o.kind == "check" || o.kind == "cleanup" {
+			only = storeOfKey(m.fk.failedKey)
+		}
 		for id, b := range before {
+			if only != 0 && id != only {
+				continue
+			}
 			if a, ok := after[id]; !ok || a.meta != b.meta || a.state != b.state || a.lw != b.lw || a.rw != b.rw {
-				return bad("failed-write-changed-served-state", "a storage write failed but the served record of store %d changed", id)
+				return bad("failed-write-changed-served-state", "a storage write (%s) failed but the served record of store %d changed", m.fk.failedKey, id)
 			}
 		}
-		if len(after) != len(before) {
+		if only == 0 && len(after) != len(before) {
 			return bad("failed-write-changed-served-state", "a storage write failed but the set of served stores changed")
 		}
 	}
